@@ -12,7 +12,7 @@ from . import guesser, scratch
 
 WORDS = ["password", "monkey", "dragon", "love", "abc", "iloveyou", "cat", "a", "test", "shadow", "blue", "pass"]
 CAPWORDS = ["Password", "MONKEY", "dRagon", "LoVe", "Abc", "TEST", "passWORD"]
-NONASCII = ["пароль", "λόγος", "señor", "é", "über", "ñandú", "мир", "Привет", "\u01c4amija", "\u01c7ubav", "\u01caegos", "\u01f1eta",
+NONASCII = ["пароль", "λόγος", "señor", "é", "über", "ñandú", "мир", "Привет", "\u0393amma", "\u0398eta", "\u03a9mega", "P\u0393x", "\u01c4amija", "\u01c7ubav", "\u01caegos", "\u01f1eta",
             "\u1c9e\u10d0\u10e0\u10dd\u10da\u10d8", "\u1c9b\u10d4"]
 DIGS = ["1", "12", "123", "1234", "2019", "1987", "007", "0", "99", "2000", "19", "20191"]
 SYMS = ["!", "!!", "@", "#", "$$", ".", "-", "_", " ", "  ", "?!"]
@@ -20,7 +20,8 @@ CASED_SYMBOLS = ["Ⓐ", "Ⓩ", "Ⅷ", "Ⅻ", "ⓐ", "ⅷ", "★", "②"]     # c
 WALKS = ["1qaz", "qwer", "asdf", "zaq1", "1q2w3e", "qwerty", "1qaz2wsx", "asdfgh"]
 CONTEXT = ["<3", ";p", "#1", "*0*", ":)"]
 EMAILS = ["bob@gmail.com", "alice@yahoo.com", "x@y.org", "bob@yahoo.com.au", "dave@web.com.usa", "me@mail.ru.com"]
-SITES = ["www.google.com", "http://a.net", "foo.com", "www.bbc.org.uk", "x.co.uk", "shop.com.net.org"]
+SITES = ["www.google.com", "http://a.net", "foo.com", "www.bbc.org.uk", "x.co.uk", "shop.com.net.org", "www.google.com/", "www.rockyou.com/mail/",
+         "mysite.net/"]
 NONBMP = ["\U0001F600", "\U0001F512"]
 AWKWARD = ["İstanbul", "straße", "ǅ", "K"]     # U+0130, ß, U+01C5, U+212A (flagged)
 TRICKY = ["201x", "19a9", "1q2", "qwe", "#1x", "#12", "No.", "i<3", "2019", "1999x", "x2000", "20201", "12019", "1qa", "qaz1",
